@@ -8,7 +8,7 @@ d=/verif/seeded/$id
 [ -f $d/patch.diff ] || { echo "no $d/patch.diff"; exit 2; }
 if [ -n "$(git -C /repo status --porcelain)" ]; then echo "/repo is not clean"; exit 2; fi
 git -C /repo apply $d/patch.diff || { echo "patch does not apply"; exit 2; }
-trap 'git -C /repo checkout -- . ; git -C /repo clean -fdq -- tests demo 2>/dev/null; git -C /verif checkout -- coq/theories/Gen 2>/dev/null' EXIT
+trap 'git -C /repo checkout -- . ; git -C /repo clean -fdq -- tests demo 2>/dev/null; git -C /verif checkout -- coq/theories/Gen evidence 2>/dev/null' EXIT
 out=$(/verif/check $prop $tier 2>&1); rc=$?
 viol=$(echo "$out" | grep "^VIOLATION" | head -3)
 {
